@@ -1,269 +1,18 @@
-// Package c01 checks C01: string and key commands behave as a sequential Redis keyspace.
 package c01
 
 import (
-	"strings"
 	"testing"
 
-	"pgregory.net/rapid"
-
-	"verifharness/gen"
 	"verifharness/kit"
 	"verifharness/prog"
 )
 
 func TestMain(m *testing.M) { kit.Main(m, "C01") }
 
-// key pool: built to collide, to differ only by case or bytes, plus keys seeded with other types
-var strKeys = []string{"a", "A", "Foo", "foo", "", "k\r\n", "\x00\xff k"}
-var typedKeys = []string{"L", "S", "H", "Z", "X"}
-var pool = append(append([]string{}, strKeys...), typedKeys...)
-
-func genKey(t *rapid.T) string {
-	switch rapid.IntRange(0, 11).Draw(t, "keykind") {
-	case 0, 1:
-		return rapid.SampledFrom(typedKeys).Draw(t, "tkey")
-	case 2:
-		if rapid.IntRange(0, 3).Draw(t, "rare") == 0 {
-			return "r" + string(rapid.SliceOfN(rapid.Byte(), 0, 4).Draw(t, "rkey"))
-		}
-	}
-	return rapid.SampledFrom(strKeys).Draw(t, "skey")
-}
-
-func genIndex(t *rapid.T, label string) string {
-	if rapid.IntRange(0, 5).Draw(t, label+"k") == 0 {
-		return rapid.SampledFrom([]string{"2147483648", "-2147483649", "9223372036854775807", "-9223372036854775808", "x", ""}).Draw(t, label)
-	}
-	return gen.SmallInt(t, label, -8, 8)
-}
-
-func genOp(t *rapid.T) kit.Cmd {
-	c := func(name string, args ...string) kit.Cmd {
-		return kit.MkCmd(append([]string{gen.CaseOf(t, name)}, args...)...)
-	}
-	k := genKey(t)
-	switch gen.Weighted(t, "cmd", []int{14, 8, 4, 4, 3, 3, 5, 3, 5, 5, 4, 3, 3, 3, 3, 5, 4, 3, 4, 3, 2, 2, 2, 2}) {
-	case 0: // SET with options
-		args := []string{k, gen.Value(t, "v")}
-		// options: condition, GET, one expire-class option; rarely illegal combinations
-		var opts [][]string
-		switch rapid.IntRange(0, 9).Draw(t, "cond") {
-		case 0, 1:
-			opts = append(opts, []string{gen.CaseOf(t, "nx")})
-		case 2, 3:
-			opts = append(opts, []string{gen.CaseOf(t, "xx")})
-		case 4:
-			if rapid.IntRange(0, 3).Draw(t, "both") == 0 {
-				opts = append(opts, []string{"nx"}, []string{"XX"})
-			}
-		}
-		hasNX := len(opts) == 1 && (opts[0][0] == "nx" || opts[0][0] == "NX" || opts[0][0] == "Nx" || opts[0][0] == "nX")
-		if rapid.IntRange(0, 3).Draw(t, "get") == 0 && !hasNX {
-			opts = append(opts, []string{gen.CaseOf(t, "get")})
-		}
-		expire := func() []string {
-			switch rapid.IntRange(0, 5).Draw(t, "exp") {
-			case 0:
-				return []string{gen.CaseOf(t, "keepttl")}
-			case 1:
-				return []string{gen.CaseOf(t, "ex"), gen.Pick(t, "ex", "1000", "5000", "100000", "0", "-1", "abc", "9223372036854775807")}
-			case 2:
-				return []string{gen.CaseOf(t, "px"), gen.Pick(t, "px", "1000000", "5000000", "0", "-5", "x")}
-			case 3:
-				return []string{gen.CaseOf(t, "exat"), gen.Pick(t, "exat", "4102444800", "4102448400", "0", "-1", "zz")}
-			case 4:
-				return []string{gen.Pick(t, "bad", "bogus", "", "EX")}
-			}
-			return []string{gen.Pick(t, "dangling", "ex", "px", "exat")} // keyword without its argument
-		}
-		if rapid.IntRange(0, 2).Draw(t, "hasexp") > 0 {
-			e1 := expire()
-			opts = append(opts, e1)
-			if rapid.IntRange(0, 9).Draw(t, "two") == 0 {
-				e2 := expire()
-				if strings.ToLower(e2[0]) != strings.ToLower(e1[0]) {
-					opts = append(opts, e2)
-				}
-			}
-		}
-		// options in a generated order
-		perm := rapid.Permutation(opts).Draw(t, "order")
-		for _, o := range perm {
-			args = append(args, o...)
-		}
-		return c("set", args...)
-	case 1:
-		return c("get", k)
-	case 2:
-		n := rapid.IntRange(1, 3).Draw(t, "n")
-		var args []string
-		for i := 0; i < n; i++ {
-			args = append(args, genKey(t), gen.Value(t, "v"))
-		}
-		if rapid.IntRange(0, 9).Draw(t, "odd") == 0 {
-			args = args[:len(args)-1]
-		}
-		return c("mset", args...)
-	case 3:
-		n := rapid.IntRange(1, 4).Draw(t, "n")
-		var args []string
-		for i := 0; i < n; i++ {
-			args = append(args, genKey(t))
-		}
-		return c("mget", args...)
-	case 4:
-		return c("setnx", k, gen.Value(t, "v"))
-	case 5:
-		return c("setex", k, gen.Pick(t, "sec", "1000", "7200", "0", "-3", "abc", "9223372036854775807"), gen.Value(t, "v"))
-	case 6:
-		return c("append", k, gen.Value(t, "v"))
-	case 7:
-		return c("strlen", k)
-	case 8:
-		return c("getrange", k, genIndex(t, "s"), genIndex(t, "e"))
-	case 9:
-		off := gen.SmallInt(t, "off", -1, 12)
-		if rapid.IntRange(0, 9).Draw(t, "offk") == 0 {
-			off = gen.Pick(t, "badoff", "x", "", "-5", "1.5")
-		}
-		return c("setrange", k, off, gen.Value(t, "v"))
-	case 10:
-		return c(gen.Pick(t, "incdec", "incr", "decr"), k)
-	case 11:
-		return c(gen.Pick(t, "incdecby", "incrby", "decrby"), k, gen.Int(t, "by"))
-	case 12:
-		if rapid.IntRange(0, 5).Draw(t, "nf") == 0 {
-			return c("incrbyfloat", k, gen.NotNumber(t, "f"))
-		}
-		return c("incrbyfloat", k, gen.Float(t, "f"))
-	case 13: // seed integer-looking and float-looking values so that INCR* paths are reached
-		return c("set", k, gen.Pick(t, "numv", "0", "10", "-7", "9223372036854775807", "-9223372036854775808", "3.5", "1e3", "12abc"))
-	case 14:
-		n := rapid.IntRange(1, 3).Draw(t, "n")
-		var args []string
-		for i := 0; i < n; i++ {
-			args = append(args, genKey(t))
-		}
-		return c("del", args...)
-	case 15:
-		n := rapid.IntRange(1, 3).Draw(t, "n")
-		var args []string
-		for i := 0; i < n; i++ {
-			args = append(args, genKey(t))
-		}
-		return c("exists", args...)
-	case 16:
-		return c("type", k)
-	case 17:
-		return c("rename", k, genKey(t))
-	case 18:
-		return c("keys", gen.Pick(t, "pat", "*", "a", "A", "f*", "F*", "?", "*o*", "[aA]", "k*", "\\*", ""))
-	case 19:
-		if rapid.Bool().Draw(t, "arg") {
-			return c("ping", gen.Value(t, "v"))
-		}
-		return c("ping")
-	case 20:
-		return c("ttl", k)
-	case 21:
-		return c("persist", k)
-	case 22:
-		args := []string{k, gen.Pick(t, "sec", "1000", "2000", "90000", "abc")}
-		if rapid.Bool().Draw(t, "hasopt") {
-			args = append(args, gen.CaseOf(t, gen.Pick(t, "eopt", "nx", "xx", "gt", "lt", "zz")))
-		}
-		return c("expire", args...)
-	default: // wrong arity of a random listed command
-		name := gen.Pick(t, "arityname", "get", "set", "append", "strlen", "getrange", "setrange", "incr", "incrby", "del", "exists", "type", "rename", "keys", "mset", "mget", "setnx", "setex", "incrbyfloat", "decrby")
-		n := rapid.IntRange(0, 5).Draw(t, "arity")
-		var args []string
-		for i := 0; i < n; i++ {
-			args = append(args, gen.Pick(t, "aa", "a", "A", "1", "x"))
-		}
-		return c(name, args...)
-	}
-}
-
-func genProgram(t *rapid.T) prog.Program {
-	p := prog.Program{ShardNum: rapid.SampledFrom([]int{1, 2, 16}).Draw(t, "shards")}
-	// prologue: keys of every other type
-	if rapid.IntRange(0, 3).Draw(t, "prologue") > 0 {
-		p.Ops = append(p.Ops,
-			kit.MkCmd("RPUSH", "L", "x", "y"), kit.MkCmd("SADD", "S", "m"), kit.MkCmd("HSET", "H", "f", "v"),
-			kit.MkCmd("ZADD", "Z", "1", "m"), kit.MkCmd("XADD", "X", "1-1", "f", "v"))
-	}
-	n := rapid.SampledFrom([]int{1, 3, 6, 12, 25, 40}).Draw(t, "len")
-	if kit.Thorough() && rapid.IntRange(0, 9).Draw(t, "long") == 0 {
-		n = 200
-	}
-	for i := 0; i < n; i++ {
-		p.Ops = append(p.Ops, genOp(t))
-	}
-	return p
-}
-
-func opts() prog.Options {
-	return prog.Options{
-		SweepKeys: func(p prog.Program) []string {
-			seen := map[string]bool{}
-			out := []string{}
-			for _, k := range pool {
-				seen[k] = true
-				out = append(out, k)
-			}
-			for _, op := range p.Ops { // rare random keys
-				for _, a := range op[1:] {
-					if strings.HasPrefix(string(a), "r") && len(a) <= 5 && !seen[string(a)] {
-						seen[string(a)] = true
-						out = append(out, string(a))
-					}
-				}
-			}
-			return out
-		},
-		NonTrivial: func(p prog.Program, st *prog.Stats) bool {
-			if st.WrongType > 0 {
-				return true
-			}
-			// >= 3 ops on one key incl. a write followed by a read through a different command, or an
-			// upper-case / binary key
-			perKey := map[string][]string{}
-			for _, op := range p.Ops {
-				if len(op) < 2 {
-					continue
-				}
-				k := string(op[1])
-				perKey[k] = append(perKey[k], strings.ToLower(string(op[0])))
-				if k != strings.ToLower(k) || strings.ContainsAny(k, "\r\n\x00\xff") {
-					return true
-				}
-			}
-			for _, cmds := range perKey {
-				if len(cmds) >= 3 {
-					distinct := map[string]bool{}
-					for _, c := range cmds {
-						distinct[c] = true
-					}
-					if len(distinct) >= 2 {
-						return true
-					}
-				}
-			}
-			return false
-		},
-	}
-}
-
-func exec(p prog.Program) kit.Outcome {
-	o, _ := prog.Run(p, opts())
-	return o
-}
-
 func TestPrograms(t *testing.T) {
-	kit.Check(t, kit.Spec[prog.Program]{Sub: "prog", Quick: 1500, Thorough: 40000, Gen: genProgram, Exec: exec})
+	kit.Check(t, kit.Spec[prog.Program]{Sub: "prog", Quick: 1500, Thorough: 40000, Gen: GenProgram, Exec: Exec})
 }
 
 func TestReplay(t *testing.T) {
-	kit.Replay[prog.Program](t, map[string]func(kit.RawCase) kit.Outcome{"prog": kit.ReplaySub(exec)})
+	kit.Replay[prog.Program](t, map[string]func(kit.RawCase) kit.Outcome{"prog": kit.ReplaySub(Exec)})
 }
